@@ -64,6 +64,10 @@ func c01Lexical(n int, nlp bool) {
 		q = q + " " + vWord("q2", 2)
 	}
 	opts := SearchOptions{Limit: limit, PipelineBoost: pb, AllPlatforms: true, UseNLP: nlp, PipelineOnly: verifBool("pipelineOnly")}
+	if k := verifIntRange("contextBoost", 0, 4); k > 0 {
+		// context boosts are an option like any other: also values no analyser would produce
+		opts.ContextBoosts = map[string]float64{"aa": []float64{2, -3, math.NaN(), math.Inf(-1)}[k-1]}
+	}
 	res := db.SearchUniversal(q, opts)
 	c01Shape(db, res, limit, "SearchUniversal")
 	verifReach("checked")
